@@ -46,6 +46,9 @@ def jsonKeys (getset : Bool) (tc : TagCase) (sw : Bool × Bool) (promG promS : L
 
 /-- `data.JSON`: are MarshalJSON / UnmarshalJSON emitted at all -/
 def needJSON (getset : Bool) (tc : TagCase) (sw : Bool × Bool) (promG promS : List String) (fs : List Field) : Bool :=
+  -- a type that embeds a struct always gets its own methods: a MarshalJSON promoted from the embedded struct (an embedded
+  -- shoot type generated with -json has one) would encode the embedded part only
+  fs.any (fun f => f.isEmbeded && !f.isShadowed) ||
   fs.any (fun f =>
     !f.isShadowed && !f.isEmbeded &&
       (if isExportedName f.name then f.jsonTag = "" && trans tc f.name ≠ f.name
